@@ -99,7 +99,8 @@ Lemma reconnect_responds st r :
 Proof. intros He Hu Hs. unfold should_respond. rewrite He, Hu, Hs. reflexivity. Qed.
 
 Lemma new_watched_has_names st t ns :
-  exists w, new_watched_resource st t ns t = Some w /\ names w = norm ns /\ nonce_sent w = 0.
+  exists w, new_watched_resource st t ns t = Some w /\ names w = norm ns /\ nonce_sent w = 0 /\
+            always_respond w = false.
 Proof.
   unfold new_watched_resource.
   destruct (warming_deps t) as [|d l] eqn:Ed.
